@@ -394,10 +394,22 @@ def gen_static(g, depth, ptypes=None, out=None, budget=None, kw_ok=False, ret_fr
     # (StaticTrace.subtraces) with sorted keys at every pytree boundary
     letters = rng.sample("abcdxyzw", 8)
     group = g.fresh("g")
-    for j in range(nst):
-        if budget <= 0:
+    pending = None  # (switch node, statement index of the choice that selects its branch)
+    cs = P.get("choice_switch", 0.0)
+    for j in range(nst + 1):
+        if budget <= 0 or (j >= nst and pending is None):
             break
-        if depth > 0 and rng.random() < P["nest"]:
+        forced_index = None
+        if pending is not None:
+            # `i ~ categorical(...) @ a; switch(...)(i, ...) @ b`: a branch index
+            # that is itself a random choice (what genjax.mix does)
+            callee, forced_index = pending
+            pending = None
+        elif cs > 0 and depth > 0 and budget >= 3 and rng.random() < cs:
+            sw = gen_any(g, max(depth - 1, 1), budget=budget - 1, kinds={"switch": 1})
+            callee = {"k": "dist", "d": "categorical", "n": len(sw["branches"])}
+            pending = (sw, len(stmts))
+        elif depth > 0 and rng.random() < P["nest"]:
             callee = gen_any(g, depth - 1, budget=budget)
         else:
             callee = gen_leaf(g)
@@ -419,6 +431,8 @@ def gen_static(g, depth, ptypes=None, out=None, budget=None, kw_ok=False, ret_fr
             st["kw"] = {n: synth(g, env, t) for n, t in sorted(callee["kwp"].items())}
         else:
             st["args"] = [synth(g, env, t) for t in ins]
+        if forced_index is not None and forced_index < len(stmts) and stmts[forced_index]["callee"].get("d") == "categorical":
+            st["args"][0] = ["v", forced_index]
         base = letters[j % 8]
         if callee["k"] == "dist":
             name = base + LEAF_CODE[callee["d"]] + str(callee.get("n", ""))
